@@ -27,6 +27,12 @@ def base_scenarios():
         s16.append(Scn("st16q%d" % k, oo, [{"policy": "queue", "cap": 2, "stopafter": 0}],
                        [{"pid": 1, "src": 0, "kind": "try", "n": 10, "gap_us": 300, "retries": 2},
                         {"pid": 2, "src": 0, "kind": "block", "n": 10, "gap_us": 200, "retries": 0}]))
+    for k in range(6):
+        # conflating over a dictionary: effective deltas mixed with deltas that have no effect; timed from the graph's start
+        oo = dict(o, seed=170 + k, end_us=300000, slice_us=300)
+        s16.append(Scn("st16d%d" % k, oo, [{"policy": "confd", "cap": 0, "stopafter": 0}],
+                       [{"pid": 1, "src": 0, "kind": "try", "n": 12, "gap_us": 150, "retries": 0, "fx": "110"},
+                        {"pid": 2, "src": 0, "kind": "try", "n": 12, "gap_us": 0, "retries": 0, "fx": "1011"}], stopper=8000))
     s17 = []
     for k in range(6):
         oo = dict(o, seed=70 + k, end_us=6000, slice_us=300)
@@ -194,7 +200,104 @@ def c16_drop_wake_after_send(ev):
     return renumber(ev[:w] + extra + tail + [{"e": "end", "msg": ""}])
 
 
+def is_dict(ev):
+    return any(e["e"] == "dlv" and e["keys"] for e in ev)
+
+
+def c16d_delivery_misses_a_key(ev):
+    """a merged state with two or more keys is delivered without one of them (not the newest value, so the prefix stays)"""
+    order = [e["v"] for e in ev if is_h(e, "cf_accepted")]
+    for e in ev:
+        if e["e"] == "dlv" and len(e["vals"]) >= 2:
+            k = min(range(len(e["vals"])), key=lambda i: order.index(e["vals"][i]))
+            del e["vals"][k]
+            del e["keys"][k]
+            return ev
+    return None
+
+
+def c16d_value_under_other_key(ev):
+    for e in ev:
+        if e["e"] == "dlv" and len(e["vals"]) >= 2:
+            e["keys"][0], e["keys"][1] = e["keys"][1], e["keys"][0]
+            return ev
+    return None
+
+
+def c16d_tail(ev, sends):
+    """the trace up to its last wait before any stop, then the given sends (value, fx), then the loop sits out a slice"""
+    if not is_dict(ev):
+        return None
+    i = find(ev, lambda e: e["e"] in ("stopcall",) or is_h(e, "sc_begin_close"))
+    w = max([k for k in range(i if i >= 0 else len(ev)) if is_h(ev[k], "rt_wait_begin")], default=-1)
+    if w < 0:
+        return None
+    calls, undelivered = {}, set()
+    for e in ev[:w]:
+        if e["e"] == "call":
+            calls[e["th"]] = e
+        elif e["e"] == "ret":
+            calls.pop(e["th"], None)
+        elif is_h(e, "cf_accepted") and calls.get(e["th"], {}).get("fx") == 1:
+            undelivered.add(e["v"])
+        elif is_h(e, "cf_take"):
+            undelivered.clear()
+    if calls or undelivered:
+        return None
+    extra = []
+    for v, fx in sends:
+        extra += [{"e": "call", "s": 0, "th": 9, "src": 0, "v": v, "kind": "try", "fx": fx},
+                  {"e": "h", "s": 0, "th": 9, "p": "cf_accepted", "o": 0, "a": fx, "b": 0, "src": 0, "v": v},
+                  {"e": "ret", "s": 0, "th": 9, "src": 0, "v": v, "r": 1, "exc": 0}]
+    tail = [copy.deepcopy(ev[w]), {"e": "h", "s": 0, "th": 0, "p": "rt_wait_end", "o": 1, "a": 0, "b": ev[w]["b"] + 400, "src": -1, "v": -1}]
+    return renumber(ev[:w] + extra + tail + [{"e": "end", "msg": ""}])
+
+
+def c16d_no_effect_delta_cancels_delivery(ev):
+    """an effective delta, then one without effect, both accepted; nothing is delivered and the loop sleeps a slice"""
+    return c16d_tail(ev, [(9000, 1), (9001, 0)])
+
+
+def c16d_no_effect_delta_alone(ev):
+    """control: only a delta without effect is accepted before the loop sleeps - there is nothing to deliver"""
+    return c16d_tail(ev, [(9001, 0)])
+
+
 # ------------------------------------------------------------------ C17 corruptions
+def c17_pushed_value_missed(ev):
+    """a value is admitted by the push source and its send returns, the loop then sits out a whole wait on it"""
+    i = find(ev, lambda e: e["e"] in ("stopcall",))
+    w = max([k for k in range(i if i >= 0 else len(ev)) if is_h(ev[k], "rt_wait_begin")], default=-1)
+    if w < 0:
+        return None
+    open_calls, qn = {}, 0
+    for e in ev[:w]:
+        if e["e"] == "call":
+            open_calls[e["th"]] = True
+        elif e["e"] == "ret":
+            open_calls.pop(e["th"], None)
+        elif is_h(e, "pq_accepted"):
+            qn += 1
+        elif is_h(e, "pq_pop"):
+            qn -= 1
+    if open_calls or qn:
+        return None
+    extra = [{"e": "call", "s": 0, "th": 9, "src": 0, "v": 9000, "kind": "try", "fx": 1},
+             {"e": "h", "s": 0, "th": 9, "p": "pq_accepted", "o": 0, "a": 1, "b": 1, "src": 0, "v": 9000},
+             {"e": "ret", "s": 0, "th": 9, "src": 0, "v": 9000, "r": 1, "exc": 0}]
+    tail = [copy.deepcopy(ev[w]), {"e": "h", "s": 0, "th": 0, "p": "rt_wait_end", "o": 1, "a": 0, "b": ev[w]["b"] + 300, "src": -1, "v": -1}]
+    return renumber(ev[:w] + extra + tail + [{"e": "end", "msg": ""}])
+
+
+def c17_pushed_value_in_flight(ev):
+    """control: the same, but the send that admitted the value has not returned yet - it may still be about to wake the loop"""
+    out = c17_pushed_value_missed(ev)
+    if out is None:
+        return None
+    k = find(out, lambda e: e["e"] == "ret" and e["th"] == 9)
+    return renumber(out[:k] + out[k + 1:-1] + [out[k], out[-1]])
+
+
 def c17_cycle_before_wall(ev):
     prev = None
     for e in ev:
@@ -318,7 +421,11 @@ C16 = [("duplicate a delivery (same value again in a later cycle)", c16_duplicat
        ("send_blocking fails although nothing has stopped", c16_blocking_failed_without_stop, "C16.blocking_send_failed_without_stop"),
        ("two deliveries at the same evaluation time", c16_two_in_one_cycle, "C16.two_values_in_one_cycle"),
        ("a delivery at an earlier time than the previous one", c16_times_decreasing, "C16.delivery_times_not_increasing"),
-       ("drop the wake after a send: the loop sleeps a slice on an accepted value", c16_drop_wake_after_send, "C16.accepted_value_never_delivered_although_run_continued")]
+       ("drop the wake after a send: the loop sleeps a slice on an accepted value", c16_drop_wake_after_send, "C16.accepted_value_never_delivered_although_run_continued"),
+       ("dictionary: a delivered merged state lacks one of its keys", c16d_delivery_misses_a_key, "C16.delivered_not_the_merged_latest_state_of_the_accepted_deltas"),
+       ("dictionary: two delivered values exchange their keys", c16d_value_under_other_key, "C16.delivered_value_under_another_key"),
+       ("dictionary: effective delta, then a no-effect delta, nothing delivered, loop sleeps", c16d_no_effect_delta_cancels_delivery, "C16.accepted_value_never_delivered_although_run_continued"),
+       ("dictionary, control: only a no-effect delta accepted, loop sleeps (must be accepted)", c16d_no_effect_delta_alone, "")]
 C17 = [("make a cycle precede its wall time", c17_cycle_before_wall, "C17.evaluated_before_wall_clock_reached_T"),
        ("drop a wake after a notify: flag set while waiting, loop sleeps again", c17_drop_wake_after_notify, "C17.notification_lost_while_waiting"),
        ("repeat a cycle at the same evaluation time", c17_cycle_repeated, "C17.time_not_strictly_increasing"),
@@ -328,7 +435,9 @@ C17 = [("make a cycle precede its wall time", c17_cycle_before_wall, "C17.evalua
        ("a future wall-clock alarm is registered 7 us late", c17_alarm_wrong_time, "C17.alarm_registered_at_the_wrong_time"),
        ("two more cycles after a stop request returned", c17_ran_on_after_stop, "C17.ran_on_after_stop_request"),
        ("the timer's cycle happens 3 us before its scheduled time", c17_evaluated_at_unscheduled_time, "C17.evaluated_at_a_time_never_scheduled"),
-       ("run() returns before the end time without a stop request", c17_returned_early, "C17.run_returned_before_end_time_without_stop")]
+       ("run() returns before the end time without a stop request", c17_returned_early, "C17.run_returned_before_end_time_without_stop"),
+       ("a pushed value is admitted, its send returns, the loop sits out a wait on it", c17_pushed_value_missed, "C17.pushed_value_missed_the_loop_sat_out_a_wait_on_it"),
+       ("control: the same while the admitting send is still in flight (must be accepted)", c17_pushed_value_in_flight, "")]
 
 
 def table(pid, scns, corruptions):
@@ -370,11 +479,17 @@ def table(pid, scns, corruptions):
 
 def model_mutants():
     rows = []
-    for mu, want in (("wake_after_push", "NoSleepOnPending"), ("no_remark", "NoSleepOnPending"), ("full_gt", "CapacityBound"), ("late_close", "DecisionsOK")):
+    for mu, want in (("wake_after_push", "NoSleepOnPending"), ("no_remark", "NoSleepOnPending"), ("late_reset", "NoSleepOnPending"), ("full_gt", "CapacityBound"),
+                     ("late_close", "DecisionsOK")):
         r = hg.tlc("MCPushQueue", "PushQueue.mutant.cfg", env={"PQ_MUTANT": mu}, timeout=1200, workers=8)
         m = re.search(r"Invariant (\w+) is violated", r.violation or "")
         got = m.group(1) if m else "(no violation)"
         rows.append(("PushQueue.tla mutant " + mu, want, got, got == want))
+    # the pending flag of the conflating policy follows the last delta only (dictionary output, deltas without effect)
+    r = hg.tlc("MCPushQueue", "PushQueue.mutantd.cfg", env={"PQ_MUTANT": "pending_last"}, timeout=1200, workers=8)
+    m = re.search(r"Invariant (\w+) is violated", r.violation or "")
+    got = m.group(1) if m else "(no violation)"
+    rows.append(("PushQueue.tla mutant pending_last (dictionary source)", "NoSleepOnPending", got, got == "NoSleepOnPending"))
     r = hg.tlc("MCRealTime", "RealTime.mutant.cfg", timeout=1200, workers=8)
     m = re.search(r"Invariant (\w+) is violated", r.violation or "")
     got = m.group(1) if m else "(no violation)"
